@@ -34,18 +34,18 @@ NE == IF P_MODE \in {"engines", "racy"} THEN N ELSE 1
 
 (* ---- the harness cases ---- *)
 Backends == <<"vm", "vmct", "closure", "interp">>
-Kinds == <<"engines", "warm", "invoke", "mixed">>
+Kinds == <<"engines", "warm", "invoke", "mixed", "shared">>
 NP == Len(ConcProgs)
 Gs == IF P_SIZE >= 2 THEN <<2, 4, 8>> ELSE <<4>>
 Rot == IF P_SIZE >= 2 THEN NP ELSE 6
 Scenario(kind, g, b, r) ==
-  [fam |-> "conc", kind |-> kind, g |-> g, backend |-> b, rounds |-> IF kind = "invoke" THEN 6 ELSE 2, envid |-> "E1", rot |-> r,
-   progs |-> [i \in 1..g |-> ConcProgs[((r * 3 + (i - 1) * (IF kind = "invoke" THEN 0 ELSE 5)) % NP) + 1]],
+  [fam |-> "conc", kind |-> kind, g |-> g, backend |-> b, rounds |-> IF kind \in {"invoke", "shared"} THEN 6 ELSE 2, envid |-> "E1", rot |-> r,
+   progs |-> [i \in 1..g |-> ConcProgs[((r * 3 + (i - 1) * (IF kind \in {"invoke", "shared"} THEN 0 ELSE 5)) % NP) + 1]],
    ovs |-> [i \in 1..g |-> ConcOv(i)]]
 \* one compiled expression invoked by all: every program of the pool (rot = 6 r, so that r * 3 runs through all of them)
 Cases == Concat([k \in 1..Len(Kinds) |-> Concat([gi \in 1..Len(Gs) |-> Concat([b \in 1..Len(Backends) |->
-            [r \in 1..(IF Kinds[k] = "invoke" THEN NP ELSE Rot) |->
-               Scenario(Kinds[k], Gs[gi], Backends[b], IF Kinds[k] = "invoke" THEN 6 * (r - 1) ELSE r - 1)]])])])
+            [r \in 1..(IF Kinds[k] \in {"invoke", "shared"} THEN NP ELSE Rot) |->
+               Scenario(Kinds[k], Gs[gi], Backends[b], IF Kinds[k] \in {"invoke", "shared"} THEN 6 * (r - 1) ELSE r - 1)]])])])
 
 Init == IF P_MODE = "cases" THEN st = [seed |-> 0] /\ CInit([p \in 1..1 |-> <<>>], TRUE, 1)
         ELSE st = [model |-> P_MODE] /\ CInit(Progs, Warm, NE)
